@@ -1,4 +1,4 @@
-HOOK_COMMITS = ["74bf6ff", "82c1591", "9aba3ab", "7b80cf4", "aa851e5", "4f43e9e", "0d9cb6c", "ac67f30", "f87827f", "49c2432", "902f705", "c680004"]
+HOOK_COMMITS = ["74bf6ff", "82c1591", "9aba3ab", "7b80cf4", "aa851e5", "4f43e9e", "0d9cb6c", "ac67f30", "f87827f", "49c2432", "902f705", "c680004", "8c2f76b"]
 
 ALL = ["C%02d" % i for i in range(1, 21)]
 
@@ -51,9 +51,10 @@ TEXTS = {
                      "Concurrency (theories/HashMapConc.v, HashMapConcProofs.v): a small-step model of the protocol between Compute, resize and the lock-free Get (root-bucket locks, resize-in-progress and newer-table re-checks, the resizing flag, "
                      "buckets copied under their locks in any order, grow-before-insert with retry, shrink attempts that give up, publication before release) for ANY number of threads, EVERY schedule and all hash functions: "
                      "C15_concurrent_table_is_the_map - the published table always holds exactly the abstract map (nothing lost, nothing resurrected across resizes); C15_concurrent_update_atomic / _applied_exactly_once - a function is given the abstract map's binding "
-                     "under the lock of the current table's bucket and is applied exactly once per call whatever retries happen; C15_concurrent_get_regular - a Get returns a binding its key had between its table load and its return; bucket locks and the flag are mutual exclusions "
+                     "under the lock of the current table's bucket and is applied exactly once per call whatever retries happen; C15_concurrent_get_regular - a Get returns a binding its key had between its table load and its return; C15_concurrent_iteration_sound / _complete / _no_removed_entry - what a finished Range yielded for a key is what the abstract map held for it at some moment of the iteration "
+                     "(so a key present throughout is yielded, one removed before it began is not); C15_concurrent_no_deadlock - a reachable state in which no step changes anything has every call returned; bucket locks and the flag are mutual exclusions "
                      "(inductive invariant over counts of lock holders / resizers, ghost history of the map). The tbl engine replays hook-to-hook schedules of the real table on the extracted model. "
-                     "Iteration during a resize and Clear under concurrency are checked by implementation oracles only.",
+                     "Clear under concurrency is checked by implementation oracles only.",
                design_ref="DESIGN.md section 0.2 and section 5, C15",
                note="Trusted: Coq kernel, extraction, OCaml replayers, Go harness, verif exports and hook points of internal/hashmap, the runtime's goroutine wait reasons (self-checked). maphash is an input (the theorems hold for every hash function). In the protocol model a table version is a key->binding store and a bucket's update, a bucket's copy and a Get's read are one step each (the layout inside a chain is the sequential theorems').",
                technique="Coq refinement proof (table model = finite map, all hash functions and operation sequences, across resizes) + Coq invariant proof of the concurrency protocol over all schedules + executable models with call-by-call and schedule-by-schedule correspondence; concurrent oracles on free-running executions"),
